@@ -327,6 +327,13 @@ func (c *Config) UnmarshalYAML(unmarshal func(any) error) error {
 		*c.Global = DefaultGlobalConfig()
 	}
 
+	// An explicit `http_config: null` removes the default client config that
+	// receivers copy and dereference below. Restore it as well.
+	if c.Global.HTTPConfig == nil {
+		httpConfig := commoncfg.DefaultHTTPClientConfig
+		c.Global.HTTPConfig = &httpConfig
+	}
+
 	if c.Global.SlackAppToken != "" && len(c.Global.SlackAppTokenFile) > 0 {
 		return errors.New("at most one of slack_app_token & slack_app_token_file must be configured")
 	}
